@@ -724,3 +724,224 @@ Proof.
   unfold canon_bytes3, heads_shortest. destruct (parse_exact bs); try discriminate.
   intros H. apply andb_true_iff in H. tauto.
 Qed.
+
+(* ------------------------------------------------------------------ locality / prefix-freeness *)
+
+(* a successful parse consumed a non-empty prefix and does not depend on what follows that prefix *)
+Definition pstrong {A} (p : parser A) : Prop :=
+  forall bs x r, p bs = Ok (x, r) ->
+  exists pre, bs = pre ++ r /\ pre <> [] /\ forall r2, p (pre ++ r2) = Ok (x, r2).
+
+Lemma pstrong_suffix {A} (p : parser A) : pstrong p -> psuffix p.
+Proof. intros H bs x r E. apply H in E as [pre [E1 [E2 _]]]. exists pre. split; assumption. Qed.
+
+Lemma pstrong_local {A} (p : parser A) : pstrong p ->
+  forall pre r1 r2 x, p (pre ++ r1) = Ok (x, r1) -> p (pre ++ r2) = Ok (x, r2).
+Proof.
+  intros H pre r1 r2 x E. apply H in E as [pre' [E1 [_ E3]]]. apply app_inv_tail in E1. subst pre'. apply E3.
+Qed.
+
+Lemma split_at_ok k l p r : split_at k l = Some (p, r) -> l = p ++ r /\ length p = k.
+Proof.
+  unfold split_at. destruct (k <=? length l)%nat eqn:E; [|discriminate].
+  intros H; injection H as <- <-. split; [symmetry; apply firstn_skipn|]. rewrite firstn_length. lia.
+Qed.
+
+Lemma decode_head_strong bs m a r : decode_head bs = Some (m, a, r) ->
+  exists b0 t0, bs = (b0 :: t0) ++ r /\ forall r2, decode_head ((b0 :: t0) ++ r2) = Some (m, a, r2).
+Proof.
+  destruct bs as [|b t]; [discriminate|]. cbn [decode_head].
+  destruct (b mod 32 <? 24) eqn:E0.
+  { intros H; injection H as <- <- <-. exists b, []. split; [reflexivity|]. intros r2.
+    cbn [app decode_head]. rewrite E0. reflexivity. }
+  assert (P : forall k, match split_at k t with Some (p, r') => Some (b / 32, Arg (unbe p 0), r') | None => None end
+                        = Some (m, a, r) ->
+              exists p, t = p ++ r /\ forall r2,
+                match split_at k (p ++ r2) with Some (p, r') => Some (b / 32, Arg (unbe p 0), r') | None => None end
+                = Some (m, a, r2)).
+  { intros k. destruct (split_at k t) as [[p r']|] eqn:E; [|discriminate].
+    intros H; injection H as <- <- <-. apply split_at_ok in E as [-> Hl]. exists p. split; [reflexivity|].
+    intros r2. rewrite split_at_app by exact Hl. reflexivity. }
+  destruct (b mod 32 =? 24) eqn:E1.
+  { intros H. apply P in H as [p [-> H]]. exists b, p. split; [reflexivity|]. intros r2.
+    cbn [app decode_head]. rewrite E0, E1. apply H. }
+  destruct (b mod 32 =? 25) eqn:E2.
+  { intros H. apply P in H as [p [-> H]]. exists b, p. split; [reflexivity|]. intros r2.
+    cbn [app decode_head]. rewrite E0, E1, E2. apply H. }
+  destruct (b mod 32 =? 26) eqn:E3.
+  { intros H. apply P in H as [p [-> H]]. exists b, p. split; [reflexivity|]. intros r2.
+    cbn [app decode_head]. rewrite E0, E1, E2, E3. apply H. }
+  destruct (b mod 32 =? 27) eqn:E4.
+  { intros H. apply P in H as [p [-> H]]. exists b, p. split; [reflexivity|]. intros r2.
+    cbn [app decode_head]. rewrite E0, E1, E2, E3, E4. apply H. }
+  destruct (b mod 32 =? 31) eqn:E5; [|discriminate].
+  intros H; injection H as <- <- <-. exists b, []. split; [reflexivity|]. intros r2.
+  cbn [app decode_head]. rewrite E0, E1, E2, E3, E4, E5. reflexivity.
+Qed.
+
+Lemma take_bytes_strong n bs s r : take_bytes n bs = Ok (s, r) ->
+  bs = s ++ r /\ forall r2, take_bytes n (s ++ r2) = Ok (s, r2).
+Proof.
+  intros H. apply take_bytes_ok in H as [-> Hl]. split; [reflexivity|]. intros r2. apply take_bytes_app, Hl.
+Qed.
+
+Lemma parse_n_strong {A} (p : parser A) : pstrong p ->
+  forall k bs xs r, parse_n p k bs = Ok (xs, r) ->
+  exists pre, bs = pre ++ r /\ (k <= length pre)%nat /\ forall r2, parse_n p k (pre ++ r2) = Ok (xs, r2).
+Proof.
+  intros Hp. induction k as [|k IH]; intros bs xs r H; cbn [parse_n] in H.
+  - injection H as <- <-. exists []. split; [reflexivity|]. split; [cbn [length]; lia|]. intros r2. reflexivity.
+  - apply bind_ok in H as [[x r1] [H1 H]]. apply bind_ok in H as [[xs' r2] [H2 H]]. injection H as <- <-.
+    apply Hp in H1 as [pre1 [-> [Hne L1]]]. apply IH in H2 as [pre2 [-> [Hk L2]]].
+    exists (pre1 ++ pre2). rewrite app_assoc. split; [reflexivity|]. split.
+    + rewrite app_length. destruct pre1; [congruence|]. cbn [length]. lia.
+    + intros r3. cbn [parse_n]. rewrite <- app_assoc, L1. cbn [bind]. rewrite L2. reflexivity.
+Qed.
+
+Lemma parse_until_break_strong {A} (p : parser A) : pstrong p ->
+  forall k bs xs r, parse_until_break p k bs = Ok (xs, r) ->
+  exists pre, bs = pre ++ r /\ (length xs < length pre)%nat /\
+    forall r2 k', (length xs <= k')%nat -> parse_until_break p k' (pre ++ r2) = Ok (xs, r2).
+Proof.
+  intros Hp.
+  assert (B : forall b t xs r, (b =? 255) = true -> Ok ([], t) = Ok (xs, r) ->
+    exists pre, b :: t = pre ++ r /\ (length xs < length pre)%nat /\
+      forall r2 k', (length xs <= k')%nat -> parse_until_break p k' (pre ++ r2) = @Ok (list A * bytes) (xs, r2)).
+  { intros b t xs r Eb H. injection H as <- <-. exists [b]. split; [reflexivity|]. split; [cbn [length]; lia|].
+    intros r2 k' _. destruct k'; cbn [app parse_until_break]; rewrite Eb; reflexivity. }
+  induction k as [|k IH]; intros bs xs r H; destruct bs as [|b t]; cbn [parse_until_break] in H;
+    try discriminate; destruct (b =? 255) eqn:Eb; try discriminate; try (apply B; assumption).
+  apply bind_ok in H as [[x r1] [H1 H]]. apply bind_ok in H as [[xs' r2] [H2 H]]. injection H as <- <-.
+  apply Hp in H1 as [pre1 [E [Hne L1]]]. apply IH in H2 as [pre2 [-> [Hk L2]]].
+  destruct pre1 as [|b' t']; [congruence|]. cbn [app] in E. injection E as <- ->.
+  exists ((b :: t') ++ pre2). rewrite app_assoc. split; [reflexivity|]. split.
+  - rewrite app_length. cbn [length]. lia.
+  - intros r3 k' Hk'. destruct k' as [|k']; [cbn [length] in Hk'; lia|].
+    rewrite <- app_assoc. cbn [app parse_until_break]. rewrite Eb.
+    change (b :: t' ++ pre2 ++ r3) with ((b :: t') ++ pre2 ++ r3). rewrite L1. cbn [bind].
+    rewrite L2 by (cbn [length] in Hk'; lia). reflexivity.
+Qed.
+
+Lemma parse_pair_strong {A} (p : parser A) : pstrong p -> pstrong (parse_pair p).
+Proof.
+  intros Hp bs [k v] r H. unfold parse_pair in H.
+  apply bind_ok in H as [[k' r1] [H1 H]]. apply bind_ok in H as [[v' r2] [H2 H]]. injection H as <- <- <-.
+  apply Hp in H1 as [pre1 [-> [Hne L1]]]. apply Hp in H2 as [pre2 [-> [_ L2]]].
+  exists (pre1 ++ pre2). rewrite app_assoc. split; [reflexivity|]. split; [apply app_ne_nil, Hne|].
+  intros r3. unfold parse_pair. rewrite <- app_assoc, L1. cbn [bind]. rewrite L2. reflexivity.
+Qed.
+
+Lemma parse_chunk_strong m : pstrong (parse_chunk m).
+Proof.
+  intros bs x r H. unfold parse_chunk in H.
+  destruct (decode_head bs) as [[[m' [n|]] r0]|] eqn:Hd; try discriminate.
+  destruct (m' =? m) eqn:Em; [|discriminate].
+  apply decode_head_strong in Hd as [b0 [t0 [-> L0]]]. apply take_bytes_strong in H as [-> L1].
+  exists ((b0 :: t0) ++ x). rewrite app_assoc. split; [reflexivity|]. split; [discriminate|].
+  intros r2. unfold parse_chunk. rewrite <- app_assoc, L0, Em. apply L1.
+Qed.
+
+Lemma guard_local n (k : nat) (pre r2 : bytes) : (N.to_nat n <= length pre)%nat -> (n <=? len (pre ++ r2)) = true.
+Proof. intros H. unfold len. rewrite app_length. lia. Qed.
+
+Lemma parse_body_strong p : pstrong p -> pstrong (parse_body p).
+Proof.
+  intros Hp bs x r H. unfold parse_body in H.
+  destruct bs as [|b0 t]; [discriminate|].
+  destruct (decode_head (b0 :: t)) as [[[m a] r0]|] eqn:Hd; [|discriminate].
+  apply decode_head_strong in Hd as [b0' [t0 [E0 L0]]]. cbn [app] in E0. injection E0 as <- ->.
+  assert (K : forall pre, r0 = pre ++ r ->
+            (forall r2, parse_after p b0 m a (pre ++ r2) = Ok (x, r2)) ->
+            exists pre', b0 :: t0 ++ r0 = pre' ++ r /\ pre' <> [] /\
+                         forall r2, parse_body p (pre' ++ r2) = Ok (x, r2)).
+  { intros pre -> L. exists ((b0 :: t0) ++ pre). rewrite <- app_assoc. split; [reflexivity|]. split; [discriminate|].
+    intros r2. rewrite <- app_assoc. rewrite (parse_body_head _ _ _ _ _ (L0 (pre ++ r2))). cbn [app hd]. apply L. }
+  unfold parse_after in H.
+  destruct (major_of m) as [[]|] eqn:Em; destruct a as [n|]; try discriminate.
+  - injection H as <- <-. apply (K []); [reflexivity|]. intros r2. unfold parse_after. rewrite Em. reflexivity.
+  - injection H as <- <-. apply (K []); [reflexivity|]. intros r2. unfold parse_after. rewrite Em. reflexivity.
+  - apply bind_ok in H as [[s r1] [H1 H]]. injection H as <- <-.
+    apply take_bytes_strong in H1 as [-> L]. apply (K s); [reflexivity|].
+    intros r2. unfold parse_after. rewrite Em, L. reflexivity.
+  - apply bind_ok in H as [[s r1] [H1 H]]. injection H as <- <-.
+    apply (parse_until_break_strong _ (parse_chunk_strong 2)) in H1 as [pre [-> [Hl L]]]. apply (K pre); [reflexivity|].
+    intros r2. unfold parse_after. rewrite Em, L by (rewrite app_length; lia). reflexivity.
+  - apply bind_ok in H as [[s r1] [H1 H]]. injection H as <- <-.
+    apply take_bytes_strong in H1 as [-> L]. apply (K s); [reflexivity|].
+    intros r2. unfold parse_after. rewrite Em, L. reflexivity.
+  - apply bind_ok in H as [[s r1] [H1 H]]. injection H as <- <-.
+    apply (parse_until_break_strong _ (parse_chunk_strong 3)) in H1 as [pre [-> [Hl L]]]. apply (K pre); [reflexivity|].
+    intros r2. unfold parse_after. rewrite Em, L by (rewrite app_length; lia). reflexivity.
+  - destruct (n <=? len r0); [|discriminate].
+    apply bind_ok in H as [[s r1] [H1 H]]. injection H as <- <-.
+    apply (parse_n_strong _ Hp) in H1 as [pre [-> [Hl L]]]. apply (K pre); [reflexivity|].
+    intros r2. unfold parse_after. rewrite Em, (guard_local n O pre r2 Hl), L. reflexivity.
+  - apply bind_ok in H as [[s r1] [H1 H]]. injection H as <- <-.
+    apply (parse_until_break_strong _ Hp) in H1 as [pre [-> [Hl L]]]. apply (K pre); [reflexivity|].
+    intros r2. unfold parse_after. rewrite Em, L by (rewrite app_length; lia). reflexivity.
+  - destruct (n <=? len r0); [|discriminate].
+    apply bind_ok in H as [[s r1] [H1 H]]. injection H as <- <-.
+    apply (parse_n_strong _ (parse_pair_strong _ Hp)) in H1 as [pre [-> [Hl L]]]. apply (K pre); [reflexivity|].
+    intros r2. unfold parse_after. rewrite Em, (guard_local n O pre r2 Hl), L. reflexivity.
+  - apply bind_ok in H as [[s r1] [H1 H]]. injection H as <- <-.
+    apply (parse_until_break_strong _ (parse_pair_strong _ Hp)) in H1 as [pre [-> [Hl L]]].
+    apply (K pre); [reflexivity|].
+    intros r2. unfold parse_after. rewrite Em, L by (rewrite app_length; lia). reflexivity.
+  - apply bind_ok in H as [[s r1] [H1 H]]. injection H as <- <-.
+    apply Hp in H1 as [pre [-> [_ L]]]. apply (K pre); [reflexivity|].
+    intros r2. unfold parse_after. rewrite Em, L. reflexivity.
+  - cbv zeta in H. apply (K []).
+    + destruct (b0 mod 32 <? 24); [injection H as _ <-; reflexivity|].
+      destruct (b0 mod 32 =? 24); [destruct (n <? 32); [discriminate|injection H as _ <-; reflexivity]|].
+      destruct (b0 mod 32 =? 25); [injection H as _ <-; reflexivity|].
+      destruct (b0 mod 32 =? 26); injection H as _ <-; reflexivity.
+    + intros r2. unfold parse_after. rewrite Em. cbv zeta. cbn [app].
+      destruct (b0 mod 32 <? 24); [injection H as <- _; reflexivity|].
+      destruct (b0 mod 32 =? 24); [destruct (n <? 32); [discriminate|injection H as <- _; reflexivity]|].
+      destruct (b0 mod 32 =? 25); [injection H as <- _; reflexivity|].
+      destruct (b0 mod 32 =? 26); injection H as <- _; reflexivity.
+Qed.
+
+Theorem parse_item_strong f : pstrong (parse_item f).
+Proof. induction f as [|f IH]; [discriminate|]. exact (parse_body_strong _ IH). Qed.
+
+(* the parse of an item does not depend on the bytes after it (hence encodings are prefix-free) *)
+Theorem parse_item_prefix_free f pre r1 r2 it :
+  parse_item f (pre ++ r1) = Ok (it, r1) -> parse_item f (pre ++ r2) = Ok (it, r2).
+Proof. apply pstrong_local, parse_item_strong. Qed.
+
+Theorem parse_one_local pre r1 r2 it :
+  parse_one (pre ++ r1) = Ok (it, r1) -> parse_one (pre ++ r2) = Ok (it, r2).
+Proof.
+  unfold parse_one at 1. intros H. apply (parse_item_prefix_free _ _ _ r2) in H.
+  rewrite <- H. symmetry. apply parse_item_default. rewrite H. discriminate.
+Qed.
+
+Theorem skip_item_local bs pre rest : skip_item bs = Ok (pre, rest) ->
+  forall rest', skip_item (pre ++ rest') = Ok (pre, rest').
+Proof.
+  intros H rest'. apply skip_item_parse in H as [it [H ->]]. apply skip_item_parse.
+  exists it. split; [apply (parse_one_local _ _ _ _ H)|reflexivity].
+Qed.
+
+(* the slice delimited by skip_item is itself exactly one well-formed item, the same one *)
+Theorem skip_item_slice bs pre rest : skip_item bs = Ok (pre, rest) ->
+  exists it, parse_one bs = Ok (it, rest) /\ parse_exact pre = Ok it.
+Proof.
+  intros H. apply skip_item_parse in H as [it [H ->]]. exists it. split; [exact H|].
+  apply parse_exact_ok. rewrite <- (app_nil_r pre). apply (parse_one_local _ _ _ _ H).
+Qed.
+
+Corollary skip_item_wf bs pre rest : skip_item bs = Ok (pre, rest) -> item_wf pre = true.
+Proof. intros H. apply skip_item_slice in H as [it [_ H]]. unfold item_wf. rewrite H. reflexivity. Qed.
+
+(* two parses of byte strings one of which is a prefix of the other agree: no well-formed item is a
+   proper prefix of another *)
+Corollary item_wf_prefix_free a b : item_wf a = true -> item_wf (a ++ b) = true -> b = [].
+Proof.
+  unfold item_wf. intros Ha Hab.
+  destruct (parse_exact a) as [ia| | |] eqn:Ea; try discriminate.
+  destruct (parse_exact (a ++ b)) as [iab| | |] eqn:Eab; try discriminate.
+  apply parse_exact_ok in Ea, Eab. rewrite <- (app_nil_r a) in Ea.
+  apply (parse_one_local _ _ b) in Ea. rewrite Ea in Eab. injection Eab as _ ->. reflexivity.
+Qed.
